@@ -602,47 +602,10 @@ class C08(Check):
                    'element names unique within their scope (C07 territory); rename is not part of the histories']
 
 
-WITNESSES = {
-    # Coq: C08_artefact_ports_deleted_refuted (G1, remove_node n1)
-    'stranded_subinterface': ({'flavour': 'exp', 'history': [
-        ['node', 'n1', 'RENC', 'VM'], ['comp', 'n1', 'c1', 'SmartNIC_ConnectX_6'],
-        ['child', ['c', 'n1', 'c1', 'c1-p2'], 'ch1', 100],
-        ['ns', 'net', 'L2Bridge', [['c', 'n1', 'c1', 'c1-p1'], ['c', 'n1', 'c1', 'c1-p2', 'ch1']]]],
-        'op': ['remove_node', 'n1']}, r'^stranded-service-port op=remove_node via=subinterface'),
-    # Coq: C08_unpeer_only_peered_refuted (G3)
-    'unpeer_not_peered': ({'flavour': 'exp', 'history': [
-        ['node', 'n1', 'RENC', 'VM'], ['comp', 'n1', 'c1', 'SmartNIC_ConnectX_6'],
-        ['ns', 'neta', 'L2Bridge', [['c', 'n1', 'c1', 'c1-p1']]], ['ns', 'netb', 'L2Bridge', [['c', 'n1', 'c1', 'c1-p2']]]],
-        'op': ['unpeer', ['t', 'neta'], ['t', 'netb']]}, r'^deleted-too-much op=unpeer not-peered'),
-    # Coq: C08_disconnect_only_service_port_refuted (G4)
-    'disconnect_non_service_port': ({'flavour': 'exp', 'history': [
-        ['node', 'n1', 'RENC', 'VM'], ['comp', 'n1', 'c1', 'SmartNIC_ConnectX_6'],
-        ['link', 'l1', 'Patch', [['c', 'n1', 'c1', 'c1-p1'], ['c', 'n1', 'c1', 'c1-p2']]], ['ns', 'neta', 'L2Bridge', []]],
-        'op': ['disconnect', ['t', 'neta'], ['c', 'n1', 'c1', 'c1-p1']]}, r'^deleted-too-much op=disconnect not-a-service-port'),
-    # Coq: C08_handles_remove_interface_refuted (G5)
-    'stale_remove_interface': ({'flavour': 'sub', 'history': [
-        ['node', 'n1', 'RENC', 'Server'], ['nns', 'n1', 's1', 'MPLS'], ['nif', 'n1', 's1', 'p1', 'TrunkPort']],
-        'op': ['remove_interface', ['n', 'n1', 's1'], 'p1']}, r'^stale-handle op=remove_interface'),
-    # Coq: C08_handles_remove_child_refuted (G6)
-    'stale_remove_child': ({'flavour': 'exp', 'history': [
-        ['node', 'n1', 'RENC', 'VM'], ['comp', 'n1', 'c1', 'SmartNIC_ConnectX_6'],
-        ['child', ['c', 'n1', 'c1', 'c1-p1'], 'ch1', 100]],
-        'op': ['remove_child', ['c', 'n1', 'c1', 'c1-p1'], 'ch1']}, r'^stale-handle op=remove_child'),
-}
+# the five formerly refuted statements (stranded sub-interface port, unpeer of non-peered services, disconnect of a
+# non-service peer, stale remove_interface / remove_child_interface handle lists) are repaired in /repo
+# (4c6e5fb, 13b815d, edd75a8) and are now positive theorems; their scenarios stay in corpus/C08/w_*.json
 
-
-def _witness(name):
-    def run():
-        st = Removals()
-        case, sig = WITNESSES[name]
-        o = st.observe(case)
-        bad = st.judge(case, o)
-        hit = [b for b in bad if re.search(sig, b[0])]
-        return (bool(hit), {'case': case, 'findings': bad})
-    return run
-
-
-C08.refuted_witnesses = lambda self: [(n, _witness(n)) for n in WITNESSES]
 
 if __name__ == '__main__':
     sys.exit(main(C08()))
